@@ -294,6 +294,7 @@ def decode_and_compare(eng, ctx, meter, octets, form, label, only=None, both_for
     before: messages decoded first in the same process (a decoder must not carry state from one message to the next)"""
     data = SBytes(octets)
     w = {"meter": meter, "form": form, "data": data, "other_form": bool(both_forms and form == "frame"), "before": [SBytes(list(b)) for b in before]}
+    ctx.intend(w)
     for b in before:
         try:
             decoder(meter, form)(SBytes(list(b)))
